@@ -21,6 +21,7 @@ import os
 import random
 import sys
 import traceback
+import types as _types
 from typing import Any
 
 
@@ -98,6 +99,9 @@ class Native:
             if id(x) in seen:
                 return
             seen.add(id(x))
+            if hasattr(type(x), "__universe__"):
+                walk(x.__universe__())       # a view object names the values it stands for (e.g. the paths of a file-system view)
+                return
             if isinstance(x, str):
                 strs[x] = None
             elif isinstance(x, dict):
@@ -111,6 +115,8 @@ class Native:
                     sets[frozenset(x)] = None     # a set of atoms is a value of the clause type 'set[Any]'
                 for v in x:
                     walk(v)
+            elif isinstance(x, (_types.ModuleType, _types.FunctionType, _types.MethodType, _types.BuiltinFunctionType, Native)):
+                return   # never part of a case's data (and a module's dict reaches everything)
             elif hasattr(x, "__dict__") and not isinstance(x, type):
                 uni.setdefault(type(x).__name__, {})[id(x)] = x
                 for v in vars(x).values():
@@ -150,6 +156,7 @@ class Native:
 
     # ---------------------------------------------------------------- clause evaluation
     old_snapshot: Any = None
+    old_overrides: dict[str, Any] = {}
 
     def eval_clause(self, text: str, env: dict[str, Any], old_env: dict[str, Any] | None) -> Any:
         node = ast.parse(text.strip(), mode="eval")
@@ -176,14 +183,18 @@ class Native:
                     return n
             node = ast.fix_missing_locations(L().visit(node))
 
+            g = dict(self.ns)
+            g.update(env)
+
             def __old_eval(thunk: Any) -> Any:
                 cur = self.swap_mutable(self.old_snapshot)
+                saved = {k: g[k] for k in self.old_overrides if k in g}
+                g.update(self.old_overrides)     # values that are not plain objects (a view of the file system): their pre-state snapshot
                 try:
                     return thunk()
                 finally:
+                    g.update(saved)
                     self.swap_mutable(cur)
-            g = dict(self.ns)
-            g.update(env)
             g["__old_eval"] = __old_eval
             return eval(compile(node, "<clause>", "eval"), g)
         if old_env is not None:
@@ -223,9 +234,12 @@ class Native:
             out["skipped"] = True
             out["why"] = f"requires raised {type(e).__name__}: {e}"
             return out
+        self.old_overrides = {}
         if getattr(self.side, "MUTABLE_FIELDS", None):
             self.old_snapshot = self.snapshot_mutable()
             old = dict(args)  # same objects; their pre-state fields are in the snapshot
+            self.old_overrides = {k: copy.deepcopy(v) for k, v in args.items() if hasattr(type(v), "__deepcopy__") and not hasattr(v, "__dict__")}
+            old.update(self.old_overrides)
         else:
             old = copy.deepcopy(args)
         if hasattr(self.side, "native_old"):
@@ -274,6 +288,13 @@ class Native:
             pre_raise = {nm: _ev(nm, txt) for nm, txt in raises.items()}
         if raised is not None:
             nm = type(raised).__name__
+            if nm not in raises:
+                import builtins
+                for cand in raises:   # a declared exception class covers its subclasses (FileNotFoundError is an OSError)
+                    cls = getattr(builtins, cand, None)
+                    if isinstance(cls, type) and isinstance(raised, cls):
+                        nm = cand
+                        break
             if nm in raises:
                 if pre_raise[nm] is False:
                     out["violations"].append(f"raises.{nm}.only_when")
